@@ -476,4 +476,84 @@ theorem add_remove_map (k v : String) (m m' : SMap) (ignore : Bool)
     have hk : mapHas k m = false := by simpa using hn
     simp [removeKeys, mapSet_ne_nil, mapHas_mapSet, mapDel_mapSet k v m hk]
 
+/-! ### the label / annotation map refines a key → value function: `set` and `remove` change exactly the named key -/
+
+/-- the value a label / annotation map holds for `k` (first entry wins, as in the Go map the list is read into) -/
+def mapGet (k : String) (m : SMap) : Option String := (m.find? (·.1 = k)).map (·.2)
+
+theorem mapGet_mapSet_same (k v : String) (m : SMap) : mapGet k (mapSet k v m) = some v := by
+  induction m with
+  | nil => simp [mapSet, mapGet]
+  | cons ab r ih =>
+    obtain ⟨a, b⟩ := ab
+    by_cases h1 : a = k
+    · simp [mapSet, h1, mapGet]
+    · by_cases h2 : k < a
+      · simp [mapSet, h1, h2, mapGet]
+      · simp only [mapSet, h1, if_false, h2]
+        simp only [mapGet, List.find?_cons, h1, decide_false] at ih ⊢
+        exact ih
+
+/-- **frame inside a map**: setting `k` leaves the value of every other key as it was -/
+theorem mapGet_mapSet_ne (k k' v : String) (m : SMap) (h : k' ≠ k) : mapGet k' (mapSet k v m) = mapGet k' m := by
+  have hk : ¬ k = k' := fun e => h e.symm
+  induction m with
+  | nil => simp [mapSet, mapGet, hk]
+  | cons ab r ih =>
+    obtain ⟨a, b⟩ := ab
+    by_cases h1 : a = k
+    · subst h1; simp [mapSet, mapGet, hk]
+    · by_cases h2 : k < a
+      · simp [mapSet, h1, h2, mapGet, hk]
+      · simp only [mapSet, h1, if_false, h2]
+        by_cases h3 : a = k'
+        · simp [mapGet, h3]
+        · simp only [mapGet, List.find?_cons, h3, decide_false] at ih ⊢
+          exact ih
+
+theorem mapGet_mapDel_same (k : String) (m : SMap) : mapGet k (mapDel k m) = none := by
+  induction m with
+  | nil => simp [mapDel, mapGet]
+  | cons ab r ih =>
+    obtain ⟨a, b⟩ := ab
+    by_cases h1 : a = k
+    · simp only [mapDel, mapGet] at ih; simp [mapDel, h1, mapGet, ih]
+    · simp only [mapDel, mapGet] at ih; simp [mapDel, h1, mapGet, ih]
+
+/-- removing `k` leaves the value of every other key as it was -/
+theorem mapGet_mapDel_ne (k k' : String) (m : SMap) (h : k' ≠ k) : mapGet k' (mapDel k m) = mapGet k' m := by
+  induction m with
+  | nil => simp [mapDel, mapGet]
+  | cons ab r ih =>
+    obtain ⟨a, b⟩ := ab
+    by_cases h1 : a = k
+    · subst h1
+      have : ¬ a = k' := fun e => h e.symm
+      simpa [mapDel, mapGet, this] using ih
+    · by_cases h3 : a = k'
+      · subst h3; simp [mapDel, List.filter_cons, h1, mapGet]
+      · simpa [mapDel, h1, mapGet, h3] using ih
+
+/-- **set_all_frame**: `add label/annotation k1:v1,…` (mapSetAll) leaves every key that is not named untouched —
+    for every map and every pair list -/
+theorem mapGet_mapSetAll_frame (kvs m : SMap) (k' : String) (h : ∀ kv ∈ kvs, kv.1 ≠ k') :
+    mapGet k' (mapSetAll kvs m) = mapGet k' m := by
+  induction kvs generalizing m with
+  | nil => simp [mapSetAll]
+  | cons kv r ih =>
+    simp only [mapSetAll, List.foldl_cons]
+    have := ih (mapSet kv.1 kv.2 m) (fun x hx => h x (List.mem_cons_of_mem _ hx))
+    simp only [mapSetAll] at this
+    rw [this]
+    exact mapGet_mapSet_ne kv.1 k' kv.2 m (fun e => h kv List.mem_cons_self e.symm)
+
+/-- the last pair naming `k'` decides its value after `mapSetAll` (dictionary update semantics) -/
+theorem mapGet_mapSetAll_last (kvs r m : SMap) (k' v : String) (h : ∀ kv ∈ r, kv.1 ≠ k') :
+    mapGet k' (mapSetAll (kvs ++ (k', v) :: r) m) = some v := by
+  have : mapSetAll (kvs ++ (k', v) :: r) m = mapSetAll r (mapSet k' v (mapSetAll kvs m)) := by
+    simp [mapSetAll, List.foldl_append]
+  rw [this, mapGet_mapSetAll_frame r _ k' h, mapGet_mapSet_same]
+
+example : mapGet "b" (mapSetAll [("a", "1"), ("b", "2"), ("a", "3")] [("b", "0"), ("c", "9")]) = some "2" := by decide
+
 end Kust.C17
